@@ -1544,9 +1544,9 @@ class Gen:
             bads = ["unknown", "noninit_id", "noninit_cid"]
             if cls == "Meta":
                 bads.append("noninit_seq")
-            if self.cfg["rtc"] and cls in ("LeafA", "LeafB", "LeafA2", "Boom"):
+            if pcfg.RUNTIME_TYPE_CHECK and cls in ("LeafA", "LeafB", "LeafA2", "Boom"):
                 bads.append("illtyped")
-            if self.cfg["rtc"] and cls == "Pair":
+            if pcfg.RUNTIME_TYPE_CHECK and cls == "Pair":
                 bads.append("illtyped_child")
             if cls == "Boom":
                 bads += ["boom_pre", "boom_post", "boom_pre", "boom_post"]
@@ -1621,6 +1621,10 @@ class Gen:
         if not names or self.w.peer is None:
             return self.g_ser(actor)
         return {"op": "peer_roundtrip", "p": r.choice(names)}
+
+    def g_set_config(self, actor: str) -> dict[str, Any] | None:
+        r = self.r("setcfg")
+        return {"op": "set_config", "rtc": r.random() < 0.5, "trace": r.random() < 0.3}
 
     def g_peer_source_cycles(self, actor: str) -> dict[str, Any] | None:
         r = self.r("cycles")
@@ -1886,6 +1890,8 @@ def make_config(rseed: int, prop: str, tier: str, faults: bool) -> dict[str, Any
             weights[k] *= 3
     if not any(weights.get(k, 0) > 0 for k in ("drop", "detach_self", "detach", "replace")):
         weights["drop"] = 2
+    if rtc and r.random() < 0.4:
+        weights["set_config"] = 1.5  # only in runs whose values are well-typed throughout
     gcmode = "defer" if (prop == "C03" and r.random() < 0.15) else "exact"
     if gcmode == "defer":
         weights["gc"] = 3.0
@@ -2534,6 +2540,16 @@ def op_peer_source_cycles(self: World, op: dict[str, Any]) -> str:
                 "C04.9:source-cycles",
                 f"a document written with index-based sources {b['src']} came back, after its sources had been loaded into a cleared table, attached to {[x[1] for x in seen]} instead of {[x[1] for x in want]}",
             )
+    return "ok"
+
+
+@_w2("op_set_config")
+def op_set_config(self: World, op: dict[str, Any]) -> str:
+    """The user switches RUNTIME_TYPE_CHECK / TRACE_LOGGING in the middle of a run (the digest size stays: ids are
+    judged against it): classes specialised under one setting are used under the other."""
+    pcfg.RUNTIME_TYPE_CHECK = bool(op["rtc"])
+    pcfg.TRACE_LOGGING = bool(op["trace"])
+    self.stats.probes["config_switched_mid_run"] += 1
     return "ok"
 
 
